@@ -344,7 +344,7 @@ class OpenFamily(Family):
         tl = F.gen_table_case(rng, st, mode="sorted", comp=0, small=True, nkeys=rng.pick([0, 1, 2, 5, 12]))
         tl = [l.split(" ", 1)[1] if l.startswith("@") else l for l in tl]
         tl = [l for l in tl if l.startswith(("reset", "w."))]
-        tl[1] = " ".join(a for a in tl[1].split(" ") if not a.startswith("pre=")) + " pre=-"
+        tl[1] = " ".join(a for a in tl[1].split(" ") if not a.startswith(("pre=", "thr="))) + " pre=-"
         res1 = vlib.run_script(exe, tl)
         fin = [r for r in res1 if r["req"].startswith("w.fin")]
         if not fin or not fin[0]["real"].startswith("file "):
@@ -822,7 +822,7 @@ class CorruptFamily(Family):
         tl = F.gen_table_case(rng, st, mode="sorted", small=True, nkeys=rng.pick([1, 3, 6, 12, 20]))
         tl = [l.split(" ", 1)[1] if l.startswith("@") else l for l in tl]
         tl = [l for l in tl if l.startswith(("reset", "w."))]
-        tl[1] = " ".join(a for a in tl[1].split(" ") if not a.startswith("pre=")) + " pre=-"
+        tl[1] = " ".join(a for a in tl[1].split(" ") if not a.startswith(("pre=", "thr="))) + " pre=-"
         res1 = vlib.run_script(exe, tl)
         fin = [r for r in res1 if r["req"].startswith("w.fin") and r["real"].startswith("file ")]
         if not fin and any(r["req"].startswith("w.fin") for r in res1):
